@@ -301,9 +301,13 @@ def inspect_decorator(
 
             # We need to dedent the decorator and add a dummy decorate so that we can parse its text as valid
             # source code.
-            decorator_text = textwrap.dedent(
-                "".join(decorator_lines)
-            ) + "def dummy_{}(): pass".format(uuid.uuid4().hex)
+            decorator_text = textwrap.dedent("".join(decorator_lines))
+            if decorator_text[:1] in (" ", "\t"):
+                # A continuation line inside the parentheses is indented less than the decorator itself,
+                # so the text could not be dedented as a block.
+                decorator_text = decorator_text.lstrip()
+
+            decorator_text += "def dummy_{}(): pass".format(uuid.uuid4().hex)
 
             try:
                 atok = asttokens.asttokens.ASTTokens(decorator_text, parse=True)
